@@ -66,9 +66,9 @@ def get_ast(cfg):
         return _AST_CACHE[cfg]
     os.makedirs(BUILD, exist_ok=True)
     th = tree_hash()
-    jpath = os.path.join(BUILD, 'ast_%s_%s.json' % (cfg, th))
+    jpath = os.path.join(BUILD, 'astp_%s_%s.json' % (cfg, th))
     if not os.path.exists(jpath):
-        for old in glob.glob(os.path.join(BUILD, 'ast_%s_*.json' % cfg)):
+        for old in glob.glob(os.path.join(BUILD, 'astp_%s_*.json' % cfg)):
             os.unlink(old)
         cmd = ['clang++'] + CONFIGS[cfg] + ['-fsyntax-only', '-Wno-everything',
                '-I' + os.path.join(REPO, 'fixed_lib', 'include'), '-I' + os.path.join(REPO, 'fixed_lib', 'src'),
@@ -80,8 +80,15 @@ def get_ast(cfg):
         if r.returncode != 0:
             os.unlink(tmp)
             raise Undecided('clang failed on spec/all.cc (%s):\n%s' % (cfg, r.stderr[-4000:]))
+        with open(tmp) as fh:
+            full = json.load(fh)
+        pruned = X.prune(full)
+        del full
+        with open(tmp, 'w') as fh:
+            json.dump(pruned, fh)
+        del pruned
         os.rename(tmp, jpath)
-        log('[build] clang AST dump %s: %.1fs' % (cfg, time.time() - t0))
+        log('[build] clang AST dump + prune %s: %.1fs' % (cfg, time.time() - t0))
     t0 = time.time()
     ast = X.load_ast(jpath)
     log('[build] AST %s loaded: %.1fs' % (cfg, time.time() - t0))
